@@ -394,7 +394,7 @@ def main():
         if not only_known:
             rp = os.path.join(VERIF, "replays", "%s-broken.json" % stamp)
             json.dump({"property": pid, "kind": "no-failing-input-found",
-                       "no_longer_checks": [b["name"] for b in broken], "broken": broken,
+                       "no_longer_checks": [b["name"] for b in broken], "broken": broken, "search": search_note,
                        "mismatching_cases": mismatches[:5]}, open(rp, "w"), indent=1)
             lines.append("VIOLATION property=%s replay=%s no-failing-input-found" % (pid, rp))
             exit_code = 1
